@@ -128,13 +128,20 @@ def _sqrt_mod(a, p):
 
 
 class Solution:
-    __slots__ = ("asg", "free")
+    """asg: assigned variables; free: variables that may take ANY value; dependent: list of
+    (var, constraint index) - variables eliminated as linear absorbers: each occurs only in the
+    C side of exactly one remaining constraint, so whatever the other variables are there is exactly
+    one value for it (solve in reverse order)."""
+    __slots__ = ("asg", "free", "dependent", "exist")
 
-    def __init__(self, asg, free):
-        self.asg, self.free = asg, free
+    def __init__(self, asg, free, dependent=(), exist=None):
+        self.asg, self.free, self.dependent = asg, free, list(dependent)
+        # exist: variables of constraint components that do not touch the wires of interest and
+        # that the honest witness satisfies: only their existence matters (value = honest one)
+        self.exist = exist or {}
 
 
-def exact(cons, nvars, fixed, p, max_leaves=1 << 14):
+def exact(cons, nvars, fixed, p, max_leaves=1 << 14, relevant=None, honest=None):
     """Returns (solutions, undecided, stats).  solutions: list of Solution(asg, free) where asg
     assigns every non-free variable; free variables may take ANY value of F_p.
     undecided: list of partial assignments on which the engine could not finish."""
@@ -228,12 +235,93 @@ def exact(cons, nvars, fixed, p, max_leaves=1 << 14):
             raise Capped("exact leaf cap")
         _, pending, live = r
         free = [v for v in range(1, nvars + 1) if v not in asg]
+        dependent = []
+        exist = {}
         if pending:
-            # constraints with >= 2 unknowns remain: not finished
-            undecided.append((asg, free))
-            return
+            # constraints with >= 2 unknowns remain.  Eliminate linear absorbers: an unknown that
+            # occurs in exactly one live constraint, only on its C side.
+            pend = set(pending)
+            occ = {}
+            for idx in live:
+                A, B, C = cons[idx]
+                for side, d in ((0, A), (1, B), (2, C)):
+                    for v in d:
+                        if v != 0 and v not in asg:
+                            occ.setdefault(v, []).append((idx, side))
+            changed = True
+            while pend and changed:
+                changed = False
+                for idx in sorted(pend):
+                    A, B, C = cons[idx]
+                    for v in C:
+                        if v == 0 or v in asg:
+                            continue
+                        o = occ.get(v, ())
+                        if len(o) == 1 and o[0] == (idx, 2):
+                            dependent.append((v, idx))
+                            pend.discard(idx)
+                            for d in (A, B, C):
+                                for w in d:
+                                    if w in occ:
+                                        occ[w] = [x for x in occ[w] if x[0] != idx]
+                            changed = True
+                            break
+                    if changed:
+                        break
+            if pend and relevant is not None and honest is not None:
+                # connected components (by shared unknowns) of the constraints still pending; a
+                # component that does not touch the wires of interest only has to be satisfiable,
+                # which the honest witness shows if it satisfies it together with this branch
+                comp_of, comps = {}, []
+                for idx in sorted(pend):
+                    A, B, C = cons[idx]
+                    vs = {v for d in (A, B, C) for v in d if v != 0 and v not in asg}
+                    hit = {comp_of[v] for v in vs if v in comp_of}
+                    if hit:
+                        tgt = min(hit)
+                        for h in hit - {tgt}:
+                            comps[tgt][0].update(comps[h][0])
+                            comps[tgt][1].update(comps[h][1])
+                            for v in comps[h][1]:
+                                comp_of[v] = tgt
+                            comps[h] = (set(), set())
+                    else:
+                        tgt = len(comps)
+                        comps.append((set(), set()))
+                    comps[tgt][0].add(idx)
+                    comps[tgt][1].update(vs)
+                    for v in vs:
+                        comp_of[v] = tgt
+                dep_vars = {v for v, _ in dependent}
+                ok = True
+                for idxs, vs in comps:
+                    if not idxs:
+                        continue
+                    if vs & relevant or vs & dep_vars:
+                        ok = False
+                        break
+                    trial = dict(asg)
+                    for v in vs:
+                        trial[v] = honest[v] % p
+                    trial[0] = 1
+                    for idx in idxs:
+                        A, B, C = cons[idx]
+                        if (eval_lc(A, trial, p) * eval_lc(B, trial, p) - eval_lc(C, trial, p)) % p:
+                            ok = False
+                            break
+                    if not ok:
+                        break
+                    for v in vs:
+                        exist[v] = honest[v] % p
+                if ok:
+                    pend = set()
+            if pend:
+                undecided.append((asg, free))
+                return
+            dep = {v for v, _ in dependent}
+            free = [v for v in free if v not in dep and v not in exist]
         # remaining live constraints vanish identically in their single unknown -> unknowns free
-        sols.append(Solution(asg, free))
+        sols.append(Solution(asg, free, dependent, exist))
 
     rec({k: v % p for k, v in fixed.items()}, list(range(len(cons))))
     return sols, undecided, stats
@@ -250,6 +338,10 @@ def depends_on_free(lc, free, p):
     return [v for v in free if lc.get(v, 0) % p]
 
 
+def depends_on_dependent(lc, sol, p):
+    return [v for v, _ in sol.dependent if lc.get(v, 0) % p]
+
+
 def verify(cons, asg_full, p):
     for a, b, c in cons:
         if (eval_lc(a, asg_full, p) * eval_lc(b, asg_full, p) - eval_lc(c, asg_full, p)) % p:
@@ -257,7 +349,7 @@ def verify(cons, asg_full, p):
     return True
 
 
-def expand(sol, p, nvars, cap=200000):
+def expand(sol, p, nvars, cap=200000, cons=None):
     """All total assignments represented by a Solution (only for small p)."""
     import itertools
     out = []
@@ -266,5 +358,79 @@ def expand(sol, p, nvars, cap=200000):
     for combo in itertools.product(range(p), repeat=len(sol.free)):
         a = dict(sol.asg)
         a.update(zip(sol.free, combo))
+        if sol.dependent:
+            a[0] = 1
+            for v, idx in reversed(sol.dependent):
+                A, B, C = cons[idx]
+                rest = sum(c * a[k] for k, c in C.items() if k != v)
+                lhs = sum(c * a[k] for k, c in A.items()) * sum(c * a[k] for k, c in B.items())
+                a[v] = (lhs - rest) * pow(C[v], -1, p) % p
         out.append(tuple(a[i] for i in range(1, nvars + 1)))
     return out
+
+
+def complete(sol, cons_reduced, free_values, p):
+    """Total assignment of a Solution for given values of its free variables."""
+    a = dict(sol.asg)
+    a.update(sol.exist)
+    for f in sol.free:
+        a[f] = free_values[f] % p
+    a[0] = 1
+    for v, idx in reversed(sol.dependent):
+        A, B, C = cons_reduced[idx]
+        rest = sum(c * a[k] for k, c in C.items() if k != v)
+        lhs = sum(c * a[k] for k, c in A.items()) * sum(c * a[k] for k, c in B.items())
+        a[v] = (lhs - rest) * pow(C[v], -1, p) % p
+    del a[0]
+    return a
+
+
+def affine_wire(lc, sol, cons_reduced, p):
+    """Express a wire as constant + sum coeff*free over a Solution, substituting dependent
+    variables by their defining constraint when that is affine in the unknowns.
+    Returns (const, {free var: coeff}) or None when a needed definition is not affine."""
+    asg = sol.asg
+    const, unk = 0, {}
+    for k, c in lc.items():
+        c %= p
+        if not c:
+            continue
+        if k == 0:
+            const += c
+        elif k in asg:
+            const += c * asg[k]
+        else:
+            unk[k] = (unk.get(k, 0) + c) % p
+
+    def side(d):
+        k0, u = 0, {}
+        for k, c in d.items():
+            if k == 0:
+                k0 += c
+            elif k in asg:
+                k0 += c * asg[k]
+            else:
+                u[k] = (u.get(k, 0) + c) % p
+        return k0 % p, {k: c for k, c in u.items() if c}
+
+    for v, idx in sol.dependent:           # elimination order: a definition may mention later ones
+        c = unk.pop(v, 0)
+        if not c:
+            continue
+        A, B, C = cons_reduced[idx]
+        a0, au = side(A)
+        b0, bu = side(B)
+        c0, cu = side(C)
+        if au and bu:
+            return None                     # quadratic in the unknowns
+        # A*B = C  ->  cv*v = (a0*b0 + a0*bu + b0*au) - c0 - (cu without v)
+        cv = cu.pop(v)
+        inv = pow(cv, -1, p)
+        k0 = (a0 * b0 - c0) * inv % p
+        const += c * k0
+        for src, f in ((bu, a0), (au, b0)):
+            for w, cw in src.items():
+                unk[w] = (unk.get(w, 0) + c * cw * f * inv) % p
+        for w, cw in cu.items():
+            unk[w] = (unk.get(w, 0) - c * cw * inv) % p
+    return const % p, {k: c for k, c in unk.items() if c % p}
